@@ -9,3 +9,4 @@ cd "$(dirname "$0")/.."
 /venv/bin/python translate/compat.py         # C02 (C05 C11): Compat.lean
 /venv/bin/python translate/compat_table.py   # C01: CompatTable.lean
 /venv/bin/python translate/pytd_schema.py    # C12: PytdSchema.lean
+/venv/bin/python translate/invalidate_sites.py # C08: InvalidateSites.lean
